@@ -2,7 +2,13 @@
    Statements only: each theorem is closed by [exact] of a lemma proved in Proofs/Health.v.
 
    Vocabulary (Model/Health.v, Proofs/Health.v):
-     op            SetS n v | Clear n | Check n | Watch n | Next w   (Next = one poll of stream w)
+     op            SetBy n k | Clear n | Check n | Watch n | Next w   (Next = one poll of stream w)
+                   SetBy n (Direct v) = SetS n v      : set_service_status(n, v)
+                   SetBy n ViaServing = SetServing n  : set_serving::<S>()      with S::NAME = n
+                   SetBy n ViaNotServing = SetNotServing n : set_not_serving::<S>() with S::NAME = n
+                   (setter_status k is the status the call sets: v, Serving, NotServing)
+                   The whole documented API of HealthReporter is in the alphabet: every theorem
+                   below quantifies over histories that may use any of the three ways to set.
      run / trace   the real service's model executed over a history, from [init] ("" is SERVING)
      spec_map h    the specification: a plain map name -> option status replayed over h
      subscribed h1 n w v0   after h1, [Watch n] opened stream w while the map held v0 for n
@@ -58,7 +64,8 @@ Proof. exact watch_reports_are_subsequence. Qed.
 
 Theorem c18_watch_never_reports_foreign_status : forall h1 n w v0 h2 v,
   subscribed h1 n w v0 ->
-  In v (reports w (trace init (h1 ++ Watch n :: h2))) -> v = v0 \/ In (SetS n v) h2.
+  In v (reports w (trace init (h1 ++ Watch n :: h2))) ->
+  v = v0 \/ exists k : setter, In (SetBy n k) h2 /\ setter_status k = v.
 Proof. exact watch_never_reports_foreign_status. Qed.
 
 (* while the service stays registered: one more poll brings the stream to the latest status
@@ -100,30 +107,44 @@ Theorem c18_end_is_final : forall h1 n w v0 h2 c,
          (trace (run init ((h1 ++ Watch n :: h2) ++ [Next w])) c).
 Proof. exact end_is_final. Qed.
 
-(* ---- concurrency: why sequential histories are the right domain ----
-   The theorems above speak about sequential histories.  A concurrent execution of the real
-   service is one of them (is linearizable) because of the following facts about the code, none
-   of which is proved here - tokio's RwLock and watch channel are assumed:
+(* ---- concurrency: what is theorem and what is sampled ----
+   THEOREM: nothing about concurrent executions.  All theorems above are about sequential
+   histories; the only two statements below that touch the concurrent tier
+   (c18_obs_linearizable_sound, c18_lin_obs_is_sequential) are about the COMPARATOR the harness
+   uses: they say that a case passes only if the observation equals the model's outcome on one of
+   the candidate sequential histories.  That "every concurrent execution of the real service is
+   one of the sequential histories" (linearizability) is NOT proved; it is an assumption about
+   the code and about tokio, argued as follows and sampled by the harness on every run:
    (L1) every operation acquires the service's tokio RwLock exactly ONCE - write() in
-        set_service_status and clear_service_status, read() in service_health (check) and in
-        watch - and does all of its work on the map under that one guard: the lookup, the
-        tx.send or the insert of a fresh channel, the remove (which drops the Sender, i.e. closes
-        the channel), the borrow of the value, the clone of the Receiver.  There is no .await
-        between acquiring the guard and dropping it.  So each operation takes effect atomically
-        at its acquisition, writers exclude everybody, and the order of acquisitions is a
-        sequential history.
+        set_service_status (hence set_serving / set_not_serving) and clear_service_status,
+        read() in service_health (check) and in watch - and does all of its work on the map
+        under that one guard: the lookup, the tx.send or the insert of a fresh channel, the
+        remove (which drops the Sender, i.e. closes the channel), the borrow of the value, the
+        clone of the Receiver.  There is no .await between acquiring the guard and dropping it.
+        So each operation takes effect atomically at its acquisition, writers exclude everybody,
+        and the order of acquisitions is a sequential history.
    (L2) a poll of a response stream touches only its own watch channel.  Sender::send stores the
         value and bumps the version under the channel's internal lock, borrow_and_update reads
         value and version under that lock, changed() loads version and closed bit from one
         atomic word: a poll is atomic with respect to send and to the drop of the Sender, both of
         which happen inside (L1)'s critical sections.
-   (L1) is what a "fast path" that looks up under read() and inserts under a later write() breaks.
-   It is sampled on every run by the interleaving tier of h_health: each kind of operation is
-   run in a spawned task that is switched out (cooperative budget exhausted) at each of its lock
-   acquisitions in turn while another task sets / watches+polls / clears / checks the same name;
-   the outcome must be the model's outcome for one of the sequential histories with the
-   operation atomic.  That comparison is [obs_linearizable]; the next two statements say what
-   it decides. *)
+   (L3) a task awaiting a stream is woken by send and by the drop of the Sender (tokio Notify).
+   SAMPLED (h_health, quick and thorough tier):
+   * interleave.*: (L1).  Operation A (set_service_status, set_not_serving::<S>, clear, watch,
+     check; on a fresh / existing / watched / just-cleared name) and a sequence B of 1-4
+     operations on the same name run in two tasks of a single-threaded runtime; a grid of
+     cooperative-budget offsets (k, j) switches A out at each of its lock acquisitions in turn
+     and B after each of its first budget units, so A resumes between the operations of B.
+     Verdict: the outcome equals the model's outcome for a sequential history with A atomic at a
+     position real time allows (obs_linearizable), and the plain-map oracle agrees.  Only task
+     switches at tokio yield points are explored, and only two tasks.
+   * wake: (L3).  One or two tasks AWAIT their streams while another task sets (also an equal
+     value, also through the typed API) / clears / touches another name; the awaiting tasks must
+     be polled again within a bounded number of scheduler turns and see what the sequential
+     history says (or stay parked when nothing of their service changed).
+   * stress: (L1)-(L3) under real preemption: multi-thread runtime, 4 writers x 400 sets, 12
+     awaited streams, 2 checkers; judges only safety (never a status that was not set, no end
+     without clear) and final convergence.  2 rounds quick, 8 thorough. *)
 Theorem c18_obs_linearizable_sound : forall cands t,
   obs_linearizable cands t = Nn 1 -> exists c, In c cands /\ tr_eqb (lin_obs c) t = true.
 Proof. exact obs_linearizable_sound. Qed.
@@ -151,6 +172,21 @@ Example c18_example_trace :
    OUnit; OItem Unknown; OUnit; OUnit; ONotFound; OUnit;
    OItem Serving; OEnd; OWatch 1; OItem NotServing; OEnd].
 Proof. reflexivity. Qed.
+
+(* the typed API in a history: set_serving::<S>() with S::NAME = "a" *)
+Example c18_typed_setters_trace :
+  map snd (trace init
+    [SetServing [97]; Check [97]; Check [65]; Watch [97]; SetNotServing [97]; SetNotServing [65];
+     Next 0; Next 0; Check [65]; SetS [97] Unknown; SetServing [97]; Next 0]) =
+  [OUnit; OStatus Serving; ONotFound; OWatch 0; OUnit; OUnit;
+   OItem NotServing; OPending; OStatus NotServing; OUnit; OUnit; OItem Serving].
+Proof. reflexivity. Qed.
+Example c18_foreign_status_witness_is_typed :
+  let h2 := [SetNotServing [97]; Next 0] in
+  subscribed [SetServing [97]] [97] 0 Serving /\
+  reports 0 (trace init ([SetServing [97]] ++ Watch [97] :: h2)) = [NotServing] /\
+  In (SetBy [97] ViaNotServing) h2 /\ setter_status ViaNotServing = NotServing.
+Proof. repeat split; try reflexivity. left; reflexivity. Qed.
 
 Example c18_clear_premises_hold_unseen :
   let a := [Next 0; SetS [97] NotServing; Check [97]] in
